@@ -18,7 +18,7 @@ RULE  = ("one case = one real Multiprocessor.filter call in a fresh process: (n_
 PLAN  = {"quick":    {"shards": 8, "parallel": 5, "cases": 120,  "timeout": 900},
          "thorough": {"shards": 8, "parallel": 5, "cases": 3000, "timeout": 6000}}
 REQUIRED = ["oracle.exactly-once", "oracle.pid-quota", "oracle.exception-contract", "oracle.abandon", "observed.restarts",
-            "observed.multi-worker-runs", "perturb.line-events", "oracle.reuse-same-object", "oracle.none-outputs", "oracle.exception-hard-to-transport"]
+            "observed.multi-worker-runs", "perturb.line-events", "oracle.reuse-same-object", "oracle.reuse-same-object-after-abandon", "oracle.none-outputs", "oracle.exception-hard-to-transport"]
 ASSUMPTIONS = ["resource exhaustion over hundreds of worker replacements (descriptors kept per finished worker until RLIMIT_NOFILE is reached) is not explored: the deadlock inspector of the case process keeps every started worker object alive itself, so a low descriptor limit makes the harness run out of descriptors on the unchanged code too",
                "items and outputs can be pickled (an output that cannot travel between processes is outside the quantifier); None is a legal item and a legal output",
                "CobaMultiprocessor deliberately turns the RuntimeError family into coba_exit (spawn bootstrapping guard): through it such an exception may reach the caller as CobaExit carrying the message", "order of outputs is not asserted (multiset)",
@@ -71,9 +71,14 @@ def gen_case(rng, idx=0):
         fdr = True; n = min(n, 3); items = n * (m - 1) + 2 + rng.choice([0, 1, 2]); tail = 0; lj = 0
         kmap = {u: kmap.get(u, 1) for u in range(items)}
     reuse = rng.choice([2, 3, 5, 7]) if (abandon is None and rng.random() < .35) else 0
+    raa = 0
+    if abandon is not None and abandon > 0 and rng.random() < .6:
+        # the abandoned call leaves workers that are busy with an item (slow items); the same object is then used again at once
+        raa = rng.choice([3, 5, 8]); wj = rng.choice([150, 300]); n = max(n, 2); items = max(items, 2 * n + 2)
+        for uid in range(items): kmap.setdefault(uid, 1)
     none_items = [rng.choice([0, 0, items // 2, items - 1])] if (items > 0 and rng.random() < .2) else []     # one item is None
     none_outputs = sorted({rng.randrange(items) for _ in range(rng.choice([1, 1, 2]))} - set(raising)) if (items > 0 and abandon is None and rng.random() < .2) else []   # outputs that are None
-    return {"none_outputs": none_outputs, "none_items": none_items, "reuse": reuse, "finish_during_replacement": fdr, "tail_delay_ms": tail, "n": n, "m": m, "n_items": items, "items_class": base, "via": via, "mode": mode, "pattern": pat, "kmap": kmap,
+    return {"reuse_after_abandon": raa, "none_outputs": none_outputs, "none_items": none_items, "reuse": reuse, "finish_during_replacement": fdr, "tail_delay_ms": tail, "n": n, "m": m, "n_items": items, "items_class": base, "via": via, "mode": mode, "pattern": pat, "kmap": kmap,
             "raising_kind": rkind, "raising": raising, "abandon": abandon, "perturb": perturb, "perturb_seed": rng.randrange(1 << 30),
             "worker_jitter_ms": wj, "loader_jitter_ms": lj, "consumer_jitter_ms": cj, "watchdog_s": 45, "exc_type": rng.choice(["ValueError", "KeyError", "InjectedFailure", "AssertionError", "EOFError", "TypeError", "RuntimeError", "NotImplementedError", "RecursionError", "OSError", "LookupError", "BigValueError", "TwoArgError"])}   # (StopIteration is excluded: Python itself turns it into RuntimeError inside generators, PEP 479)
 
@@ -184,14 +189,15 @@ def judge(spec, res, processed):
         elif gotc != expected:
             lost = sorted((expected - gotc).elements())
             v.append((f"lost-output/{feat}", f"{len(lost)} outputs never delivered, e.g. {lost[:5]}; loaded={sum(1 for e in res['events'] if e[0]=='loaded')} processed={len(pc)}"))
-    if spec.get("reuse") and spec["abandon"] is None:
-        obs["reuse"] = 1
-        want2 = Counter((1000 + i, 0) for i in range(spec["reuse"]))
+    n2 = spec.get("reuse") if spec["abandon"] is None else spec.get("reuse_after_abandon")
+    if n2:
+        obs["reuse" if spec["abandon"] is None else "reuse_after_abandon"] = 1
+        want2 = Counter((1000 + i, 0) for i in range(n2))
         got2 = Counter((g[0], g[1]) for g in res.get("got2", []))
         if res.get("raised2"):
-            v.append((f"reuse/second-call-raised/first-call-{'raised' if spec['raising'] else 'ok'}/{feat}", f"a second call on the same object with a healthy stream raised {res['raised2']}"))
+            v.append((f"reuse/second-call-raised/first-call-{'abandoned' if spec['abandon'] is not None else 'raised' if spec['raising'] else 'ok'}/{feat}", f"a second call on the same object with a healthy stream raised {res['raised2']}"))
         elif got2 != want2:
-            v.append((f"reuse/second-call-wrong-outputs/first-call-{'raised' if spec['raising'] else 'ok'}/{feat}", f"second call delivered {sorted(got2.elements())} expected {sorted(want2.elements())}"))
+            v.append((f"reuse/second-call-wrong-outputs/first-call-{'abandoned' if spec['abandon'] is not None else 'raised' if spec['raising'] else 'ok'}/{feat}", f"second call delivered {sorted(got2.elements())} expected {sorted(want2.elements())}"))
     return v, None, obs
 
 def trace_hash(res):
@@ -219,6 +225,7 @@ def check_case(spec, ctx=None, workdir=None):
                 if spec["raising"]: ctx.count("oracle.exception-contract")
                 if spec["abandon"] is not None: ctx.count("oracle.abandon")
                 if obs.get("reuse"): ctx.count("oracle.reuse-same-object")
+                if obs.get("reuse_after_abandon"): ctx.count("oracle.reuse-same-object-after-abandon")
                 if obs.get("none_outputs"): ctx.count("oracle.none-outputs")
                 if spec["raising"] and spec.get("exc_type") in ("BigValueError", "TwoArgError") and multi: ctx.count("oracle.exception-hard-to-transport")
                 if obs.get("restarts", 0) > 0: ctx.count("observed.restarts", obs["restarts"])
